@@ -13,6 +13,8 @@ def run(tier, seed):
     from ..propbase import gen_universe
     gen_universe(rep, "vf.oracles:c02_stream", "vf.universe:gen_emph", tier, "MarkdownIt.parse/render", "same contract on delimiter-heavy inputs (emphasis/strikethrough pairing inside links)",
                  ["commonmark", "cm+table+strike"], "all concatenations of <= k pieces over {*, **, _, ~~, ~, a, space, [, ](x), b}", "delimiter universe")
+    gen_universe(rep, "vf.oracles:c02_stream", "vf.universe:gen_emph_links", tier, "MarkdownIt.parse/render", "same contract where a link label holds an autolink (two tag levels) next to delimiter runs",
+                 ["commonmark", "cm+table+strike"], "all concatenations of <= k pieces over {[, ](x), <u:v>, *, *a, **, ~~, ~~a, _, space} that contain a bracket and an autolink", "nested-tag delimiter universe")
     from .c17 import add_cons
     add_cons(rep, "C02")
     from .c17 import add_list
